@@ -161,7 +161,7 @@ def cg(A: LinearOperator, B: torch.Tensor,
 
         if verbose:
             if k < 10 or k % 10 == 0:
-                print("%4d: |dy|=%.3e" % (k, resid_norm))
+                print("%4d: |dy|=%.3e" % (k, float(resid_norm.max())))
 
         if torch.all(resid_norm < stop_matrix):
             converge = True
@@ -316,7 +316,7 @@ def bicgstab(A: LinearOperator, B: torch.Tensor,
 
         if verbose:
             if k < 10 or k % 10 == 0:
-                print("%4d: |dy|=%.3e" % (k, resid_norm))
+                print("%4d: |dy|=%.3e" % (k, float(resid_norm.max())))
 
         # check for the stopping conditions
         if torch.all(resid_norm < stop_matrix):
